@@ -1109,10 +1109,14 @@ def vtg_case(ctx, case):
             # a length check in front of the loop would be a legitimate tightening (C06 does not ask for the truncation): counter, no verdict
             ctx.count("vtg: a vector LONGER than the parameters is refused by the implementation (the model accepts and truncates)")
             return
-        ctx.point("vector_to_grads: call refused or not (non-tensor vector, vector that runs out, vector of another element type; a LONGER vector is "
-                  "accepted)", "aux", err is None, "ok" in m, case, exact=True, sig=f"vtg/refused/{variant}", theorem="C06_slices_exact")
-        ctx.point("vector_to_grads: the .grad tensors assigned when the call returns / raises (a prefix of the parameters, each its slice)", "aux",
-                  assigned, m["assigned"], case, exact=True, sig=f"vtg/assigned/{variant}", theorem="C06_slices_exact, C06_slices_tail_ignored")
+        # DIRECT calls with a malformed vector are outside C06 (fit always passes exactly-sized vectors: oracle `<kind>/vector-length`):
+        # whether they are refused, and which .grad tensors a refused call has already assigned, is recorded, never a verdict
+        ctx.info(f"vtg/{variant}: call refused or not", err is None, "ok" in m)
+        if variant in ("exact", "longer", "much_longer") and err is None and "ok" in m:
+            ctx.point("vector_to_grads: the .grad tensors assigned when the call returns (each parameter its slice)", "aux",
+                      assigned, m["assigned"], case, exact=True, sig=f"vtg/assigned/{variant}", theorem="C06_slices_exact, C06_slices_tail_ignored")
+        else:
+            ctx.info(f"vtg/{variant}: .grad tensors assigned before the call raised", assigned, m.get("assigned"))
     ctx.count("vtg: " + ("accepted" if err is None else "refused") + f" ({variant})")
     if variant in ("exact", "longer", "much_longer") and err is None:
         # each value lands on the parameter it belongs to: parameter i holds vec[offset_i : offset_i + numel_i] reshaped, nothing after a gap
